@@ -408,6 +408,36 @@ def runHist (clear reuse : Bool) : CtxSt → List (TurnIn × Oracles) → List T
     let y := tail clear c x.1 x.2
     y.2 :: runHist clear reuse (if reuse then y.1 else CtxSt.fresh) r
 
+/-! ## the LLM planner's reflection request (`t3/policy.py:run_policy`, entry point `t3_pipeline`) -/
+
+/-- What `plan_with_llm` returned this turn: a validated answer (always carries a `reflection` key) or one
+of the fallback dicts `{"plan": [], "rationale": "fallback: …"}` (missing fixture, adapter error, invalid
+JSON / schema, CI fixture guard), which carry none. -/
+inductive PlannerOut
+  | answer (reflection : Bool)
+  | fallback
+deriving DecidableEq, Repr
+
+/-- `state._planner_reflection_flag` after the planner step of a turn (`none`: the LLM planner did not run
+this turn, the long-lived state keeps what it had).  `run_policy` stores `bool(out.get("reflection", False))`:
+the request of THIS turn's answer, `False` for a fallback. -/
+def flagAfter (prev : Bool) : Option PlannerOut → Bool
+  | none => prev
+  | some (.answer r) => r
+  | some .fallback => false
+
+/-- A history on one long-lived state whose `_planner_reflection_flag` is written only by the planner step. -/
+def runHistP (clear reuse : Bool) : Bool → CtxSt → List (Option PlannerOut × TurnIn × Oracles) → List TurnOut
+  | _, _, [] => []
+  | f, c, x :: r =>
+    let y := tail clear c { x.2.1 with stateFlag := flagAfter f x.1 } x.2.2
+    y.2 :: runHistP clear reuse (flagAfter f x.1) (if reuse then y.1 else CtxSt.fresh) r
+
+/-- The flags the turns of such a history see. -/
+def flagsP : Bool → List (Option PlannerOut) → List Bool
+  | _, [] => []
+  | f, p :: r => flagAfter f p :: flagsP (flagAfter f p) r
+
 /-! ## the turn skeleton around the tail (for isolation) -/
 
 /-- Records emitted by one `run_turn`, in order: everything up to and including the apply record
